@@ -10,6 +10,9 @@ Three parts, every generated case goes through all of them:
     line, column) of emmet.expand is compared with the extracted Coq model (coq/model/FormatIndent.v on top of
     the markup pipeline model).
   THEOREMS: coq/props/C15.v.
+  SCALE / OPTIONS (gen:scale:*, gen:options:*): the same oracle on lines whose parts are repeated 8..100 times and under
+    the output options that reach the line writer (their documented meaning is restated in writer_of) x every written
+    form of an attribute.
   LAYERS (stream C15layers): the same oracle with the indent string given through the layers of a configuration (call
     options, global entry of the type `markup`, global entry of the syntax), expand(abbr, config, global_config) and
     expand(abbr, Config(config, global_config)); the precedence is restated in this file (effective_config).
@@ -38,9 +41,45 @@ SYN = {
 }
 SYNTAXES = ['haml', 'pug', 'slim']
 INDENTS = ['\t', '  ', '    ', '--', ' \t', '\t\t', '~~~', ' ']
-BOOLEAN_NAMES = {'disabled', 'checked', 'hidden', 'required', 'readonly', 'selected', 'multiple'}
+# The HTML boolean attributes: the documented default of the option `output.booleanAttributes` (Emmet documentation of the
+# output options / upstream src/config.ts, "output.booleanAttributes"); restated here, not read from emmet/config.py.
+HTML_BOOLEAN_NAMES = ('contenteditable', 'seamless', 'async', 'autofocus', 'autoplay', 'checked', 'controls', 'defer', 'disabled',
+                      'formnovalidate', 'hidden', 'ismap', 'loop', 'multiple', 'muted', 'novalidate', 'readonly', 'required',
+                      'reversed', 'selected', 'typemustmatch')
+BOOLEAN_NAMES = set(HTML_BOOLEAN_NAMES)
 NAME_RE = re.compile(r'[A-Za-z0-9_:\-]+')
 LINE_SPLIT = re.compile(r'\r\n|\r|\n')
+
+
+# ---------------------------------------------------------------- output options that reach the line writer
+# What the documented output options mean for a haml/pug/slim line (Emmet documentation of the options; upstream
+# src/markup/format/{indent-format,haml,pug,slim}.ts and their tests), restated here:
+#   output.booleanAttributes  names that are boolean attributes WHEN WRITTEN WITHOUT A VALUE (compared in lower case)
+#   output.compactBoolean     a boolean attribute (no value) is written as the bare name (haml: `disabled` instead of
+#                             `disabled=true`); an attribute that HAS a value is written name=value whatever its name
+#   output.attributeQuotes    'single' -> '...' around quoted values, otherwise "..."; expressions keep {...}
+#   output.attributeCase      'upper' / 'lower' applied to attribute names (not to ids, classes, values)
+#   output.newline            the string between two lines;  output.baseIndent  added after every line break
+#   output.selfClosingStyle   only pug reads it: `/` after a self-closed element for 'xml', nothing otherwise
+#   output.format, formatLeafNode, formatSkip, formatForce, inlineBreak, reverseAttributes, comment.*: options of the
+#                             HTML writer / of snippet merging; they do not change a haml/pug/slim line
+def writer_of(options, syntax):
+    o = options or {}
+    ba = o.get('output.booleanAttributes')
+    return {'booleans': BOOLEAN_NAMES if ba is None else set(x.lower() for x in ba),
+            'compact': bool(o.get('output.compactBoolean', False)),
+            'quote': "'" if o.get('output.attributeQuotes') == 'single' else '"',
+            'acase': o.get('output.attributeCase') or '',
+            'self_close': ('/' if o.get('output.selfClosingStyle') == 'xml' else '') if syntax == 'pug' else SYN[syntax]['self_close']}
+
+
+def line_break_of(options):
+    o = options or {}
+    return o.get('output.newline', '\n') + o.get('output.baseIndent', '')
+
+
+def is_plain_writer(options):
+    return not any(k != 'output.indent' for k in (options or {}))
 
 
 def cfg_of(syntax, indent):
@@ -48,30 +87,47 @@ def cfg_of(syntax, indent):
 
 
 # ---------------------------------------------------------------- denotation of one element line
-def attr_text(a, S):
+def attr_text(a, S, W=None):
+    W = W or writer_of(None, 'haml')
     n, v, q = a
-    if n.endswith('.') or (v is None and n.lower() in BOOLEAN_NAMES):
-        n = n[:-1] if n.endswith('.') else n
-        return n + ('=' + S['boolean'] if S['boolean'] else '')
+    dotted = n.endswith('.')
+    if dotted:
+        n = n[:-1]
+    shown = n.upper() if W['acase'] == 'upper' else n.lower() if W['acase'] == 'lower' else n
+    if v is None and (dotted or n.lower() in W['booleans']):
+        return shown + ('=' + S['boolean'] if S['boolean'] and not W['compact'] else '')
     if v is None:
-        return n + '=""'
+        return shown + '=' + W['quote'] * 2
     if q == '{':
-        return n + '={' + v + '}'
-    return n + '="' + v + '"'
+        return shown + '={' + v + '}'
+    return shown + '=' + W['quote'] + v + W['quote']
 
 
-def head_of(name, el, S):
+def primary_of(el):
+    """(id, classes) of an element: written as `#id` / `.class`, or as the value of an id / class attribute (a class
+    attribute holds class names separated by white space).  Generated so that the id is written before the classes."""
+    idv, classes = el.id, list(el.classes)
+    for n, v, q in el.attrs:
+        if v is not None and n == 'id':
+            idv = v
+        elif v is not None and n == 'class':
+            classes += v.split()
+    return idv, classes
+
+
+def head_of(name, el, S, W=None):
     """`name#id.class.class` + attribute list; `div` omitted iff an id or a class is present."""
-    has_primary = el.id is not None or bool(el.classes)
+    idv, classes = primary_of(el)
+    has_primary = idv is not None or bool(classes)
     h = ''
     if not (name == 'div' and has_primary):
         h += S['before_name'] + name
-    if el.id is not None:
-        h += '#' + el.id
-    for c in el.classes:
+    if idv is not None:
+        h += '#' + idv
+    for c in classes:
         h += '.' + c
     # a class/id attribute written without a value carries no class/id: it is not part of the line
-    parts = [attr_text(a, S) for a in el.attrs if not (a[0] in ('class', 'id') and a[1] is None)]
+    parts = [attr_text(a, S, W) for a in el.attrs if a[0] not in ('class', 'id')]
     if parts:
         h += S['before_attr'] + S['glue'].join(parts) + S['after_attr']
     return h
@@ -85,13 +141,14 @@ def text_lines_of(text):
     return tl
 
 
-def expected_lines(tree, syntax, indent, d=0):
+def expected_lines(tree, syntax, indent, d=0, W=None):
     S = SYN[syntax]
+    W = W or writer_of(None, syntax)
     out = []
     for name, el, cs, kids in tree:
-        head = indent * d + head_of(name, el, S)
+        head = indent * d + head_of(name, el, S, W)
         if el.self_close and el.text is None and not kids:
-            out.append(head + S['self_close'])
+            out.append(head + W['self_close'])
         elif el.text is None:
             out.append(head if kids else head + ' ')
         else:
@@ -106,7 +163,7 @@ def expected_lines(tree, syntax, indent, d=0):
                     if S['after_text']:
                         ln += ' ' * (width - len(t)) + S['after_text']
                     out.append(ln)
-        out.extend(expected_lines(kids, syntax, indent, d + 1))
+        out.extend(expected_lines(kids, syntax, indent, d + 1, W))
     return out
 
 
@@ -151,6 +208,14 @@ def oracle(abbr, cfg, meta, r):
     out = r[1]
     syntax = cfg['syntax']
     indent = cfg.get('options', {}).get('output.indent', '\t')
+    sep = line_break_of(cfg.get('options'))
+    if sep != '\n':
+        # output.newline / output.baseIndent set: the lines are what stands between two `newline + baseIndent`
+        pieces = out.split(sep)
+        for k, piece in enumerate(pieces):
+            if '\n' in piece or '\r' in piece:
+                return 'line %d %r holds a line break that is not output.newline + output.baseIndent (%r)' % (k, piece, sep)
+        out = '\n'.join(pieces)
     exp = meta.get('lines') if meta else None
     if exp is not None:
         got = out.split('\n')
@@ -193,6 +258,9 @@ def oracle(abbr, cfg, meta, r):
         htree, depth = g.html_preorder(h[1])
         if depth != 0:
             return 'unbalanced tags in HTML output %r' % h[1]
+        if meta.get('ci_names'):
+            tree = [(d, nm.lower()) for d, nm in tree]
+            htree = [(d, nm.lower()) for d, nm in htree]
         if tree != htree:
             return 'tree from indentation %r differs from tree of the HTML output %r' % (tree[:12], htree[:12])
     return None
@@ -420,6 +488,221 @@ TEXT_NODE_CASES = [
 ]
 
 
+# ---------------------------------------------------------------- scale: every repeatable part of a line, many times
+# "All abbreviations of the documented grammar": nothing bounds how many class names, attributes, text lines, siblings,
+# copies or levels an abbreviation has, how long a name is or how long the indent string is.  One part at a time is taken
+# to the counts below (around 8-12, the powers of two and 100: where counters, digit counts and fixed-size limits change),
+# on an element standing alone and on one that is parent, child and last leaf of a small tree; then several at once.
+SCALE_ON = True
+SCALE_COUNTS = [8, 9, 10, 11, 12, 16, 17, 32, 33, 64, 65, 100]
+SCALE_DIMS = ['classes', 'classes-in-class-attribute', 'classes-of-nameless-div', 'attributes', 'text-lines', 'name-length',
+              'siblings', 'repeat', 'group-repeat', 'depth', 'indent-length']
+ATTR_FORMS = ['unquoted', 'quoted', 'single-quoted', 'expression', 'no-value', 'dotted', 'boolean-name', 'explicit-empty']
+
+
+def numbered(prefix, n):
+    return ['%s%d' % (prefix, i + 1) for i in range(n)]
+
+
+CLASS_SEPARATORS = [' ', '  ', '\t', ' \t ', '\n', '\r\n ']
+
+
+def class_value(classes, k):
+    """the class names as the value of a class attribute: separated by white space (one kind per value, every third
+    value mixes them)"""
+    if k % 3 == 2:
+        return ''.join(c + CLASS_SEPARATORS[(k + i) % len(CLASS_SEPARATORS)] for i, c in enumerate(classes[:-1])) + classes[-1]
+    return CLASS_SEPARATORS[(k // 3) % len(CLASS_SEPARATORS)].join(classes)
+
+
+def attr_of_form(form, name, k, rng=None):
+    """one attribute (name, value, quote) of the given written form; k varies the value"""
+    if form == 'unquoted':
+        return (name, 'v%d' % k, '')
+    if form == 'quoted':
+        return (name, 'w %d x' % k, '"')
+    if form == 'single-quoted':
+        return (name, 'q%d,r' % k, "'")
+    if form == 'expression':
+        return (name, 'e.f%d' % k, '{')
+    if form == 'no-value':
+        return (name, None, '')
+    if form == 'dotted':
+        return (name + '.', None, '')
+    if form == 'explicit-empty':
+        return (name, '', ['"', "'", '{'][k % 3])
+    raise ValueError(form)
+
+
+def many_attrs(n):
+    """n attributes of distinct names, the written forms in rotation (boolean attribute names of HTML among them)"""
+    out = []
+    for i in range(n):
+        form = ATTR_FORMS[i % len(ATTR_FORMS)]
+        if form == 'boolean-name':
+            nm = HTML_BOOLEAN_NAMES[(i // len(ATTR_FORMS)) % len(HTML_BOOLEAN_NAMES)]
+            out.append((nm, None, '') if (i // len(ATTR_FORMS)) % 2 == 0 else (nm, 'b%d' % i, ''))
+        else:
+            out.append(attr_of_form(form, 'data-n%d' % (i + 1), i))
+    return out
+
+
+def many_lines(n):
+    return '\n'.join('t%d' % i + 'x' * ((i * 7) % 13) for i in range(n))
+
+
+def scale_stmts(dim, n, names):
+    """[(statement, indent or None)]: the part `dim` taken n times, alone and inside a small tree"""
+    E = g.El
+
+    def placed(mk):
+        # alone / as parent, child and last leaf
+        return [[(mk(), '')],
+                [(E(name='section'), '>'), (mk(), '>'), (E(name='em'), '+'), (E(name='p', classes=['z']), '^'), (mk(), '')]]
+    if dim == 'classes':
+        return [(st, None) for st in placed(lambda: E(name='li', classes=numbered('c', n)))]
+    if dim == 'classes-in-class-attribute':
+        return [(st, None) for st in placed(lambda: E(name='li', attrs=[('title', 't', ''), ('class', class_value(numbered('k', n), n), '"')]))]
+    if dim == 'classes-of-nameless-div':
+        return [(st, None) for st in placed(lambda: E(name=None, id='m', classes=numbered('d-', n)))]
+    if dim == 'attributes':
+        return [(st, None) for st in placed(lambda: E(name='td', classes=['a'], attrs=many_attrs(n)))]
+    if dim == 'text-lines':
+        return [(st, None) for st in placed(lambda: E(name='p', text=many_lines(n)))]
+    if dim == 'name-length':
+        w = 'n' + 'a1-_'[n % 4] * (n - 1)
+        return [(st, None) for st in placed(lambda: E(name='q', id=w, classes=[w + 'c', 'k'], attrs=[('title', w, ''), ('lang', w + ' ' + w, '"')], text=w + ' ' + w))]
+    if dim == 'siblings':
+        sib = [(E(name=names[i % len(names)], classes=['s%d' % i] if i % 3 == 0 else []), '+') for i in range(n)]
+        a = sib[:-1] + [(sib[-1][0], '')]
+        b = [(E(name='ul'), '>')] + [(E(name=names[i % len(names)]), '+') for i in range(n - 1)] + [(E(name='li'), '>'), (E(name='em'), '^^'), (E(name='p'), '')]
+        return [(a, None), (b, None)]
+    if dim == 'repeat':
+        return [([(E(name='li', repeat=n, classes=['r']), '')], None),
+                ([(E(name='ul'), '>'), (E(name='li', repeat=n), '>'), (E(name='em'), '^^'), (E(name='p'), '')], None)]
+    if dim == 'group-repeat':
+        return [([(g.Group([(E(name='dt'), '+'), (E(name='dd'), '>'), (E(name='i'), '')], repeat=n), '+'), (E(name='p'), '')], None),
+                ([(E(name='section'), '>'), (g.Group([(E(name='p', text='a\nb'), '')], repeat=n), '+'), (E(name='q', self_close=True), '')], None)]
+    if dim == 'depth':
+        chain = [(E(name=names[i % len(names)]), '>') for i in range(n)]
+        a = chain[:-1] + [(chain[-1][0], '')]
+        b = chain[:-1] + [(E(name='p', text='x\ny'), '^' * (n // 2)), (E(name='em'), '>'), (E(name=None, classes=['k']), '^' * n), (E(name='q'), '')]
+        return [(a, None), (b, None)]
+    if dim == 'indent-length':
+        st = [(E(name='ul'), '>'), (E(name='li', text='a\nb'), '>'), (E(name='em'), '^'), (E(name='li'), '>'), (E(name='p'), '>'), (E(name='i', self_close=True), '')]
+        return [(st, ' ' * n), (st, ('\t ' * n)[:n])]
+    raise ValueError(dim)
+
+
+def big_head(rng, el):
+    """many classes / attributes / text lines on one element (counts past 8, 10 and 16)"""
+    c = rng.random()
+    if c < 0.35:
+        el.classes = numbered(rng.choice(['c', 'k-', 'u_']), rng.randint(4, 20))
+        el.attrs = [a for a in el.attrs if a[0] not in ('class', 'id')]
+    elif c < 0.45:
+        # the classes given as the value of a class attribute (no `.class` on the same element: merging is C03's subject)
+        el.classes = []
+        el.attrs = [a for a in el.attrs if a[0] not in ('class', 'id')] + \
+            [('class', class_value(numbered(rng.choice(['c', 'k-']), rng.randint(2, 20)), rng.randint(0, 17)), rng.choice(['"', "'"]))]
+    elif c < 0.75:
+        el.attrs = many_attrs(rng.randint(4, 14))
+    else:
+        el.text = many_lines(rng.randint(7, 18))
+        el.self_close = False
+
+
+# ---------------------------------------------------------------- output options x written forms of attributes
+# "configurations": the output options that reach the line writer (see writer_of) in every combination of those that
+# decide how an attribute is written, and at random together with the options of the HTML writer that must not matter;
+# on elements whose attributes take every written form (no value, unquoted, quoted, expression, explicitly empty,
+# `name.`) under every kind of name (ordinary, HTML boolean attribute, configured boolean attribute).
+OPTIONS_ON = True
+CUSTOM_BOOLEANS = ['title', 'data-x', 'allowfullscreen', 'open', 'inert']
+ATTR_OPTION_AXES = [('output.compactBoolean', [None, True, False]),
+                    ('output.booleanAttributes', [None, CUSTOM_BOOLEANS, list(HTML_BOOLEAN_NAMES) + ['open', 'inert']]),
+                    ('output.attributeQuotes', [None, 'single', 'double']),
+                    ('output.attributeCase', [None, 'upper', 'lower'])]
+OTHER_OPTION_VALUES = [('output.newline', ['\r\n', '\n\n', '\r']), ('output.baseIndent', ['  ', '\t', '>>']),
+                       ('output.selfClosingStyle', ['xml', 'xhtml', 'html']), ('output.reverseAttributes', [True]),
+                       ('output.format', [False]), ('output.formatLeafNode', [True]), ('output.formatSkip', [['section', 'p', 'li']]),
+                       ('output.formatForce', [['em', 'span', 'i']]), ('output.inlineBreak', [0, 1]), ('comment.enabled', [True]),
+                       ('output.tagCase', ['upper', 'lower'])]
+VALUE_FORMS = ['no-value', 'unquoted', 'quoted', 'single-quoted', 'expression', 'explicit-empty']
+
+
+def name_kinds(options):
+    ba = (options or {}).get('output.booleanAttributes')
+    configured = [x for x in (ba or []) if x not in BOOLEAN_NAMES]
+    return {'ordinary': [x for x in ATTR_NAMES + ['lang', 'open', 'inert'] if x not in (ba or [])],
+            'html-boolean': list(HTML_BOOLEAN_NAMES), 'configured-boolean': configured}
+
+
+def rich_attrs(rng, options, k=None):
+    """attributes of every kind of name x every written form.  An explicitly EMPTY value is given to ordinary names only
+    (whether `hidden=""` still is the boolean attribute is not something the statement settles)."""
+    kinds = name_kinds(options)
+    out, seen = [], set()
+    for i in range(k if k is not None else rng.choice([1, 2, 2, 3, 4, 6])):
+        kind = rng.choice(['ordinary', 'ordinary', 'html-boolean', 'html-boolean', 'configured-boolean', 'dotted'])
+        if kind == 'dotted':
+            nm, form = rng.choice(['foo', 'data-on', 'open', 'T']), 'dotted'
+        else:
+            if not kinds[kind]:
+                kind = 'html-boolean'
+            nm = rng.choice(kinds[kind])
+            form = rng.choice(VALUE_FORMS if kind == 'ordinary' else VALUE_FORMS[:-1])
+        if nm.lower() in seen:
+            continue
+        seen.add(nm.lower())
+        out.append(attr_of_form(form, nm, rng.randint(0, 99)))
+    return out
+
+
+def all_forms_stmt(options, rot=0):
+    """a small tree whose elements carry every (kind of name x written form) once (names of a kind in rotation)"""
+    kinds = name_kinds(options)
+    els, k = [], 0
+    for kind in ('ordinary', 'html-boolean', 'configured-boolean'):
+        pool = kinds[kind]
+        if not pool:
+            continue
+        attrs, seen = [], set()
+        for j, form in enumerate(VALUE_FORMS if kind == 'ordinary' else VALUE_FORMS[:-1]):
+            k += 1
+            nm = pool[(j + rot) % len(pool)]
+            if nm.lower() not in seen:
+                seen.add(nm.lower())
+                attrs.append(attr_of_form(form, nm, k + rot))
+        els.append(g.El(name=['section', 'p', 'td'][len(els)], classes=['c'] if len(els) == 1 else [], attrs=attrs))
+    els.append(g.El(name='custom', attrs=[('foo.', None, ''), ('required', 'yes', ''), ('lang', None, '')], self_close=True))
+    ops = ['>', '+', '>'][:len(els) - 1] + ['']
+    return [(e, o) for e, o in zip(els, ops)]
+
+
+def decorate_rich(rng, stmt, options):
+    for unit, op in stmt:
+        if isinstance(unit, g.Group):
+            decorate_rich(rng, unit.items, options)
+        else:
+            decorate_el(rng, unit, op == '>', 0.8)
+            if rng.random() < 0.6:
+                unit.attrs = rich_attrs(rng, options) + [a for a in unit.attrs if a[0] in ('class', 'id')]
+
+
+def rand_options(rng):
+    o = {}
+    for key, vals in ATTR_OPTION_AXES:
+        if rng.random() < 0.45:
+            v = rng.choice(vals[1:])
+            o[key] = list(v) if isinstance(v, list) else v
+    for key, vals in OTHER_OPTION_VALUES:
+        if rng.random() < 0.15:
+            v = rng.choice(vals)
+            o[key] = list(v) if isinstance(v, list) else v
+    return o
+
+
 def gen(ctx):
     names = g.safe_names()
     g.load_inline()
@@ -427,12 +710,21 @@ def gen(ctx):
     cases = []
     del POOL[:]
 
-    def add(stmt, syntax, indent, bucket):
+    def add(stmt, syntax, indent, bucket, options=None):
         abbr = g.render(stmt)
         tree = g.unroll(g.denote_stmt(stmt))
-        lines = expected_lines(tree, syntax, indent)
+        cfg = cfg_of(syntax, indent)
+        meta = {'tree': True, 'events': denoted_events(tree)}
+        if options:
+            cfg['options'].update(options)
+            if options.get('output.tagCase'):
+                meta['ci_names'] = True
+            for key in sorted(options):
+                ctx.cover('option:%s=%s' % (key, 'list' if isinstance(options[key], list) else repr(options[key])))
+        lines = expected_lines(tree, syntax, indent, 0, writer_of(cfg['options'], syntax))
+        meta['lines'] = lines
         POOL.append((abbr, tree, bucket))
-        cases.append((abbr, cfg_of(syntax, indent), {'lines': lines, 'tree': True, 'events': denoted_events(tree)}))
+        cases.append((abbr, cfg, meta))
         ctx.cover('gen:' + bucket)
         ctx.cover('syntax:' + syntax)
         ctx.cover('indent:%r' % indent)
@@ -517,7 +809,72 @@ def gen(ctx):
             continue
         decorate_stmt(rng, st, rng.choice([0.3, 1.0, 1.0, 1.6]))
         add(st, rng.choice(SYNTAXES), rng.choice(INDENTS), ('random-deep' if deep else 'random') + ('-big' if big else ''))
+    # 5. scale: one repeatable part of a line at a time taken to 8..100, then several at once in random statements
+    if SCALE_ON:
+        k = ctx.seed
+        for dim in SCALE_DIMS:
+            for n in SCALE_COUNTS:
+                if dim == 'group-repeat' and n > 65:
+                    continue
+                for st, ind in scale_stmts(dim, n, names):
+                    k += 1
+                    for syntax in (SYNTAXES if ctx.tier != 'quick' else [SYNTAXES[k % 3]]):
+                        add(st, syntax, ind if ind is not None else INDENTS[k % len(INDENTS)], 'scale:' + dim)
+                        ctx.cover('scale:%s:%s' % (dim, '8-12' if n <= 12 else '16-33' if n <= 33 else '64-100'))
+        for _ in range(120 if ctx.tier == 'quick' else 3000):
+            st = deep_stmt(rng, names, rng.randint(2, 7)) if rng.random() < 0.5 else g.rand_stmt(rng, names, rng.randint(1, 7), max_depth=2, rep_max=12)
+            decorate_stmt(rng, st, 0.6)
+            for el in elements_of(st):
+                if rng.random() < 0.5:
+                    big_head(rng, el)
+            if g.total_copies(g.unroll(g.denote_stmt(st))) > 200:
+                continue
+            add(st, rng.choice(SYNTAXES), rng.choice(INDENTS + ['        ', '\t\t\t']), 'scale-mixed')
+    # 6. output options x written forms of attributes
+    if OPTIONS_ON:
+        import itertools
+        k = ctx.seed
+        # every combination of the options that decide how an attribute is written, on every (name kind x form)
+        for combo in itertools.product(*[vals for _, vals in ATTR_OPTION_AXES]):
+            o = {key: (list(v) if isinstance(v, list) else v) for (key, _), v in zip(ATTR_OPTION_AXES, combo) if v is not None}
+            if not o:
+                continue
+            k += 1
+            for syntax in (SYNTAXES if ctx.tier != 'quick' or len(o) <= 2 else [SYNTAXES[k % 3]]):
+                add(all_forms_stmt(o, k), syntax, INDENTS[k % len(INDENTS)], 'options:attribute-options-all-combinations', o)
+        # every other option value alone and with compactBoolean, on the same trees and on one with text and self-closing
+        for key, vals in OTHER_OPTION_VALUES:
+            for v in vals:
+                for extra in ({}, {'output.compactBoolean': True, 'output.attributeQuotes': 'single'}):
+                    o = dict(extra)
+                    o[key] = list(v) if isinstance(v, list) else v
+                    k += 1
+                    for syntax in SYNTAXES:
+                        add(all_forms_stmt(o, k), syntax, INDENTS[k % len(INDENTS)], 'options:other-option-values', o)
+                        st = [(g.El(name='section', id='s'), '>'), (g.El(name='p', text='one\ntwo', attrs=[('hidden', None, '')]), '+'),
+                              (g.El(name='ul'), '>'), (g.El(name='li', repeat=2, classes=['c']), '>'), (g.El(name='q', self_close=True), '^^'),
+                              (g.El(name=None, classes=['x'], text='t'), '+'), (g.El(name='custom', self_close=True, attrs=[('checked', 'no', '')]), '')]
+                        add(st, syntax, INDENTS[(k + 1) % len(INDENTS)], 'options:other-option-values', o)
+        # random statements, attributes of every kind and form, random option sets
+        for _ in range(500 if ctx.tier == 'quick' else 12000):
+            o = rand_options(rng)
+            if not o:
+                continue
+            st = deep_stmt(rng, names, rng.randint(2, 9)) if rng.random() < 0.4 else g.rand_stmt(rng, names, rng.randint(1, 9), max_depth=3)
+            if g.total_copies(g.unroll(g.denote_stmt(st))) > 150:
+                continue
+            decorate_rich(rng, st, o)
+            add(st, rng.choice(SYNTAXES), rng.choice(INDENTS), 'options:random', o)
     return cases
+
+
+def elements_of(stmt):
+    for unit, _ in stmt:
+        if isinstance(unit, g.Group):
+            for e in elements_of(unit.items):
+                yield e
+        else:
+            yield unit
 
 
 # ---------------------------------------------------------------- configurations given in layers
@@ -772,6 +1129,23 @@ RULE = ('abbreviations generated as an AST (elements with ids, classes, attribut
         'level deeper with the syntax marks); tree read off the indentation = tree of the HTML output. Non-trivial = at least two '
         'lines; distinct by (abbreviation, syntax, indent). A second stream (text-only nodes, snippets, numbering, fields, all '
         'output options) is compared model vs implementation only. '
+        'Scale (gen:scale:*): one repeatable part of a line at a time taken to 8, 9, 10, 11, 12, 16, 17, 32, 33, 64, 65 and 100 -- class '
+        'names written `.c` / given as the white-space separated value of a class attribute (blank, blanks, tab, line break) / on a '
+        'nameless div, attributes (written forms in rotation), text lines, length of id/class/value/text, siblings, `*N` on an element '
+        'and on a group, nesting depth (with climbs back), length of the indent string -- on an element alone and as parent, child and '
+        'last leaf; plus random statements where several elements carry 4-20 classes / 4-14 attributes / 7-18 text lines at once '
+        '(quick tier: one syntax per case in rotation; thorough: all three). '
+        'Output options (gen:options:*): every combination of output.compactBoolean x output.booleanAttributes (default, replaced, '
+        'extended) x output.attributeQuotes x output.attributeCase on trees carrying every kind of attribute name (ordinary, HTML '
+        'boolean attribute, configured boolean attribute, `name.`) x every written form (no value, unquoted, double/single quoted, '
+        'expression, explicitly empty for ordinary names); every value of output.newline, baseIndent, selfClosingStyle, tagCase and of '
+        'the HTML-writer options that must not matter (format, formatLeafNode, formatSkip, formatForce, inlineBreak, '
+        'reverseAttributes, comment.enabled) alone and with compactBoolean+single quotes; random statements with random option sets. '
+        'The oracle restates what each option means for a line (writer_of): an attribute that HAS a value is written name=value under '
+        'every option; the boolean attribute list is the documented HTML list hard-coded in the harness, not the library\'s table; lines '
+        'are what stands between two newline+baseIndent. Not generated: an explicitly empty value on a boolean-named attribute, '
+        'empty class/id values, a value after `name.` (the statement does not settle them). All these cases also go through the Coq '
+        'model and the extracted spec (same wire format, all options are part of the encoded configuration). '
         'Layered configurations (stream C15layers): the indent string given in the call\'s own options, in the global '
         'configuration\'s entry of the syntax type (markup), in its entry of the syntax (haml/pug/slim), in any subset of the three '
         '(all 8 presence masks x all ordered choices of distinct strings from {tab, 2, 3 spaces, empty} on two fixed trees; random '
